@@ -691,6 +691,12 @@ int _vnadata_load_npd(vnadata_internal_t *vdip, FILE *fp, const char *filename)
 	    ports = columns;
 	}
     }
+    if (ports > 0 && ports > INT_MAX / ports) {
+	_vnadata_error(vdip, VNAERR_SYNTAX, "%s (line %d) error: "
+		"#:ports %d is too large",
+		nss.nss_filename, nss.nss_line, ports);
+	goto out;
+    }
     if (ports < 0) {
 	_vnadata_error(vdip, VNAERR_SYNTAX, "%s (line %d) error: "
 		"required keyword #:ports missing",
